@@ -27,7 +27,7 @@ RULE = (
     "ordered tables of <=3 (quick) / <=4 (thorough) routes over 2 bases x prefixes {8,16,24,28,32} x metrics {0,1,5}, with "
     "and without default, x 9 covering destinations are enumerated in blocks sharing their first two routes (one harness "
     "case per block; exact table / lookup counts in coverage.lpm_*); plus random tables through add_route. kind=topo: a "
-    "generated topology spec (families lan/routed/shared/dmz/wifi/loop/ring) and an op list (ping / dns exchange for ordered host "
+    "generated topology spec (families lan/routed/shared/multihome/dmz/wifi/loop/ring) and an op list (ping / dns exchange for ordered host "
     "pairs cold and warm, pings of unowned addresses, ARP-cache flushes, interface and power toggles with ticks); "
     "each exchange is compared with the reference reachability walk, monitors run throughout. Non-trivial: a routes "
     "block in which some lookup had >=2 routes containing the destination; a topo case with >=1 executed exchange "
@@ -267,6 +267,23 @@ def _wrong_mac(net, a: str, b: str) -> bool:
     return e is not None and str(e.mac_address).lower() != str(nic_b.mac_address).lower()
 
 
+def _foreign_nic_entry(net, a: str, dst_ip: str) -> bool:
+    """a has an enabled interface on dst's subnet, but its ARP entry for dst is bound to another interface, whose subnet
+    does not contain dst (learned from a routed packet). Diagnostic used in a signature only."""
+    from ipaddress import IPv4Address
+
+    na = net.get_node_by_hostname(a)
+    arp = na.software_manager.software.get("arp")
+    dst = IPv4Address(dst_ip)
+    if arp is None or not any(ni.enabled and dst in ni.ip_network for ni in na.network_interfaces.values()):
+        return False
+    e = arp.arp.get(dst)
+    if e is None:
+        return False
+    ni = na.network_interfaces.get(e.network_interface_uuid)
+    return ni is not None and dst not in ni.ip_network
+
+
 def _running(sw) -> bool:
     return sw is not None and sw.operating_state.name == "RUNNING"
 
@@ -347,12 +364,15 @@ def run_topo(case: Dict) -> CaseResult:
                     phase = "unowned"
                 else:
                     b = op[2]
-                    dst_ip = ref.node[b]["ip"]
+                    b_port = int(op[3]) if len(op) > 3 else 1  # which of b's interfaces is addressed
+                    dst_ip = int2ip(ref.ifs[(b, b_port)][0])
                     ref.saw_hairpin = False
-                    expected = ref.exchange(a, b, st_)
+                    expected = ref.exchange(a, b, st_, b_port)
+                    if len(ref.ports[a]) > 1 or len(ref.ports[b]) > 1:
+                        labels.add(f"multihomed:{'nic-down' if not all(st_.en(x, q) for x in (a, b) for q in ref.ports[x]) else 'all-up'}:{expected}")
                     if ref.saw_hairpin and expected is not None:
                         labels.add(f"hairpin:{'ok' if expected else 'fail'}")
-                    pair = frozenset((a, b))
+                    pair = frozenset((a, b, b_port))
                     phase = "warm" if pair in seen_pairs else "cold"
                     seen_pairs.add(pair)
                 if family == "ring" or not stable:
@@ -377,7 +397,10 @@ def run_topo(case: Dict) -> CaseResult:
                 where = "lan" if h == 0 else ("routed" if h > 0 else "nopath")
                 tg = "toggled" if toggled else "pristine"
                 if expected is True and not got:
-                    diag = "arp-entry-wrong-mac" if _wrong_mac(net, a, b) or _wrong_mac(net, b, a) else "plain"
+                    a_ips = [int2ip(ref.ifs[(a, q)][0]) for q in ref.ports[a]]
+                    diag = "arp-entry-on-foreign-nic" if _foreign_nic_entry(net, a, dst_ip) or any(
+                        _foreign_nic_entry(net, b, x) for x in a_ips) else (
+                        "arp-entry-wrong-mac" if _wrong_mac(net, a, b) or _wrong_mac(net, b, a) else "plain")
                     res.violate(f"{k}-fails-though-reachable:{where}:{phase}:{tg}:{diag}",
                                 f"{when}: {a} -> {dst_ip}: reference says request and reply are deliverable "
                                 f"(fwd {sorted(ref.walk(a, ip2int(dst_ip), st_))}), simulator returned False")
@@ -489,6 +512,7 @@ FAMILY_PLAN = {
     # family -> (quick examples per worker, thorough examples per worker)
     "routed": (12, 280),
     "shared": (5, 80),
+    "multihome": (4, 60),
     "dmz": (4, 80),
     "lan": (5, 60),
     "wifi": (3, 60),
